@@ -150,7 +150,10 @@ func TestC18(t *testing.T) {
 		for k := 0; k < 4; k++ {
 			scfg := peer.ServerConfig()
 			h := RunCase(tg, GridCase{Server: scfg}, []string{"example.test", "www.example.test"}[k%2], nil, peer.Opts{})
-			for _, hm := range wire.ClientHellos(h.C2S) {
+			for hi, hm := range wire.ClientHellos(h.C2S) {
+				if hi > 0 {
+					break // a second hello after a HelloRetryRequest repeats the random by design
+				}
 				if ch, err := wire.ParseClientHello(hm); err == nil {
 					observe(tg.Name, ch, hm)
 					if ch.SNI != nil && *ch.SNI != []string{"example.test", "www.example.test"}[k%2] {
